@@ -809,6 +809,13 @@ class Engine(object):
             else:
                 rcpts[-1] = rcpts[0]
             self.labels.add('repeated-recipient')
+        if spec.get('utf8'):
+            # an internationalised mailbox (SMTPUTF8): what is said about it to the sender must survive the bounce template
+            rcpts[0] = 'jos\u00e9.r0@%s.example' % tag
+            if rcpts[-1].startswith('r0@'):
+                rcpts[-1] = rcpts[0]
+            if len(rcpts) > 1 and rcpts[1].startswith('r0@'):
+                rcpts[1] = rcpts[0]
         sender = 's@%s.example' % tag if spec.get('sender', True) else ''
         env = Envelope(sender, list(rcpts))
         body = bytes.fromhex(spec['body']) if spec.get('body') else b'body of %s\r\n' % tag.encode()
@@ -1057,7 +1064,8 @@ class Engine(object):
                 return
             flat = b''.join(b.flatten())
             for r in rec['rcpts']:
-                if r.encode() not in flat:
+                # (the template is ASCII: an internationalised address may be written with character references)
+                if r.encode() not in flat and r.encode('ascii', 'xmlcharrefreplace') not in flat:
                     self.fail('C13', 'bounce-content', 'bounce for %s does not name %s' % (rec['of'], r))
                     return
             others = [r for r in orig.rcpts if r not in rec['rcpts']]
